@@ -45,17 +45,9 @@ THEOREMS = [
     "XalanModel.Props.C17.counters_history_independent",
     "XalanModel.Props.C17.counters_history_answers",
     "XalanModel.Props.C17.getPreviousNode_decreases",
-    "XalanModel.Props.C17.number_spec_any_partial",
-    "XalanModel.Props.C17.number_spec_any_from_partial",
-    "XalanModel.Props.C17.number_spec_multiple_partial",
-    "XalanModel.Props.C17.number_spec_single_partial",
-    "XalanModel.Props.C17.number_spec_single_from_partial",
-    "XalanModel.Props.C17.number_spec_any_from_counterexample",
-    "XalanModel.Props.C17.number_spec_single_from_counterexample",
-    "XalanModel.Props.C17.number_spec_from_self_counterexample",
+    "XalanModel.Props.C17.number_spec_partial",
+    "XalanModel.Props.C17.number_spec_single_multiple",
     "XalanModel.Props.C17.number_spec_any_zero_counterexample",
-    "XalanModel.Props.C17.number_null_deref_counterexample",
-    "XalanModel.Props.C17.number_null_deref_only_at_root",
     "XalanModel.Props.C17.alpha_roundtrip",
     "XalanModel.Props.C17.alpha_no_overflow",
     "XalanModel.Props.C17.roman_roundtrip",
@@ -63,6 +55,8 @@ THEOREMS = [
     "XalanModel.Props.C17.decimal_roundtrip",
     "XalanModel.Props.C17.decimal_grouping_roundtrip",
     "XalanModel.Props.C17.formatList_roundtrip",
+    "XalanModel.Props.C17.formatList_roundtrip_3999",
+    "XalanModel.Props.C17.formatList_grouping_roundtrip",
 ]
 
 WORK = os.path.join(common.CACHE, "work")
@@ -203,24 +197,6 @@ def gen_cases(r, ndocs, maxnodes, ninstr, kinds):
                     hs.append(("sort", abp, order))
                 else:
                     hs.append(G.gen_history(r, n, k))
-            # default count pattern: numbering a processing instruction raises an XPath error in the unchanged
-            # code (see CORPUS / design/C17.md); keep such nodes out of the histories of the random stream
-            if ins.count is None:
-                pis = {x.idx for x in G.preorder(root) if x.kind == "pi"}
-                hs2 = []
-                for h in hs:
-                    if isinstance(h, tuple):
-                        if pis:
-                            h = [i for i in h[2] if i not in pis]
-                        hs2.append(h)
-                    else:
-                        hs2.append([i for i in h if i not in pis])
-                hs = hs2
-            # count="node()" also matches the root in this code base, as does the default pattern when the root itself is
-            # numbered; level="any" + from then crashes at the root (corpus:s6-9 keeps that input); a crash would lose
-            # the other results of the document
-            if (ins.count is None or ins.count[0] == "node()") and ins.level == "any" and ins.frm:
-                hs = [[i for i in G.visits_of(h) if i != 0] for h in hs]
             io.append((ins, hs))
         cases.append(Case(root, io))
     return cases
@@ -258,26 +234,9 @@ def corpus():
 # evaluation of one case
 
 def classify(case, ins, node, impl_list, spec_list):
-    """structural cause of impl != spec for the known deviations of the unchanged code (design/C17.md)"""
-    nodes = G.preorder(case.root)
-    cur = nodes[node]
-    frm = ins.frm[2] if ins.frm else None
-    cnt = ins.count[2] if ins.count else (lambda n: G.node_class(n) == G.node_class(cur))
-    if ins.count and ins.count[0] == "node()" and (ins.level != "any" or node == 0):
-        return "pattern-node()-matches-root"
-    if ins.level == "any":
-        if spec_list == [0] and impl_list == []:
-            return "any,zero-count-prints-nothing"
-        if frm and frm(cur):
-            return "from,any,current-node-matches-from"
-        if frm and any(frm(m) and not m.kids for m in nodes[:node]):
-            return "from,any,childless-from-node-ignored"
-        if cnt(nodes[0]):
-            return "any,root-node-not-counted"
-    if ins.level == "single" and frm and any(frm(a) for a in G.ancestors(cur)):
-        return "from,single,ignored"
-    if ins.level == "multiple" and frm and frm(cur):
-        return "from,multiple,current-node-matches-from"
+    """structural cause of impl != spec for the known deviation of the code (design/C17.md)"""
+    if ins.level == "any" and spec_list == [0] and impl_list == []:
+        return "any,zero-count-prints-nothing"
     return None
 
 
@@ -317,17 +276,12 @@ def evaluate(ctx, cases, harness, model, tag, record=True):
                 ent = [e.split("|") for e in numreps[idx].split(" ")] if numreps[idx] else []
                 ment[(j, k)] = ent
                 idx += 1
-        expect_null = any(len(e) == 4 and "n" in e[3] for ent in ment.values() for e in ent)
         model_hist = any(len(e) == 4 and "h" in e[3] for ent in ment.values() for e in ent)
         if model_hist:
             problems.append({"kind": "machinery", "key": "model itself is history dependent (contradicts the theorem)", "detail": G.to_xml(c.root), "case": c})
         if kind == "crash":
-            j0 = 0
             ins0 = c.io[0][0]
-            if expect_null:
-                key = "number.crash[null-from-match]: %s doc=%s" % (ins0.describe(), G.to_xml(c.root))
-            else:
-                key = "number.crash[unexplained]: %s doc=%s" % (ins0.describe(), G.to_xml(c.root))
+            key = "number.crash: %s doc=%s" % (ins0.describe(), G.to_xml(c.root))
             problems.append({"kind": "fail", "key": key, "detail": "the library crashed (%s) while numbering" % text, "case": c})
             continue
         if kind == "err":
@@ -339,9 +293,6 @@ def evaluate(ctx, cases, harness, model, tag, record=True):
                 problems.append({"kind": "fail", "key": "number.error[unexplained]: %s doc=%s" % (ins0.describe(), G.to_xml(c.root)),
                                  "detail": "transformation failed: " + text[:300], "case": c})
             continue
-        if expect_null:
-            # fixed code path: no crash although the as-written condition would dereference null
-            ctx.extra["null_guard_present"] = True
         # parse the implementation's lines
         got = {}
         for ln in text.split("\n"):
@@ -709,6 +660,7 @@ def run(ctx):
     ]
     ctx.build("hooks")
     ctx.translate("c17_tables")
+    ctx.translate("c17_navshape")
     ctx.lean("XalanModel.Props.C17", THEOREMS, extra_targets=["xm_c17"])
     model = ctx.exe("xm_c17")
     harness = common.build_harness("c17_number", ["c17_number.cpp"], flavor="hooks")
